@@ -125,9 +125,16 @@ def _basetype(b):
         return '%s[%s]' % (_basetype(b.base_type_node), ','.join(':' for _ in b.axes))
     if isinstance(b, N.TemplatedTypeNode):
         return '%s[...]' % _basetype(b.base_type_node)
-    if isinstance(b, N.CConstOrVolatileTypeNode):
-        return _basetype(b.base_type)
-    if isinstance(b, N.CComplexBaseTypeNode):
+    # node classes differ between Cython versions: looked up by name, never assumed
+    for cname in ('CConstOrVolatileTypeNode', 'CConstTypeNode'):
+        cls = getattr(N, cname, None)
+        if cls is not None and isinstance(b, cls):
+            return _basetype(b.base_type)
+    cls = getattr(N, 'CTupleBaseTypeNode', None)
+    if cls is not None and isinstance(b, cls):
+        return '(%s)' % ', '.join(str(typestr(c, None) if hasattr(c, 'declarator') is False else _basetype(c)) for c in getattr(b, 'components', []))
+    cls = getattr(N, 'CComplexBaseTypeNode', None)
+    if cls is not None and isinstance(b, cls):
         return typestr(b.base_type, b.declarator)
     return type(b).__name__
 
@@ -170,8 +177,10 @@ class Lower:
     def stat(self, n):
         m = getattr(self, 's_' + type(n).__name__, None)
         if m is None:
-            raise CyFrontError('%s: unsupported statement node %s at line %s' % (
-                self.relpath, type(n).__name__, getattr(n, 'pos', ('', '?'))[1]))
+            # a statement form this lowering does not know: kept as an opaque marker call so that the rules see "something they cannot
+            # interpret here" (undecided) instead of the whole file failing to load
+            return _loc(ast.Expr(value=ast.Call(func=ast.Name(id='__cy_unsupported__', ctx=ast.Load()),
+                                                args=[ast.Constant(value=type(n).__name__)], keywords=[])), n)
         r = m(n)
         if isinstance(r, ast.AST):
             _loc(r, n)
@@ -453,8 +462,16 @@ class Lower:
             if isinstance(n, E.NumBinopNode) or isinstance(n, E.BinopNode):
                 m = self._binop
             else:
-                raise CyFrontError('%s: unsupported expression node %s at line %s' % (
-                    self.relpath, type(n).__name__, getattr(n, 'pos', ('', '?'))[1]))
+                args = []
+                for attr in ('operand', 'arg', 'base', 'obj', 'operand1', 'operand2'):
+                    sub = getattr(n, attr, None)
+                    if sub is not None and hasattr(sub, 'pos') and sub is not n:
+                        try:
+                            args.append(self.expr(sub))
+                        except Exception:
+                            pass
+                return _loc(ast.Call(func=ast.Name(id='__cy_unsupported__', ctx=ast.Load()),
+                                     args=[ast.Constant(value=type(n).__name__)] + args, keywords=[]), n)
         r = m(n)
         return _loc(r, n)
 
